@@ -18,22 +18,17 @@ RULE = ("exhaustive product: entry point (Output / SectionOutput / IO std+err / 
         "gated sequences (4000 quick / 40000 thorough): 1-3 sections, 3-14 calls out of flagged write / write_line of marked texts "
         "(plain, wrapped, tagged, two lines, empty), overwrite, clear / clear(1) / clear(2), indent, set_quiet, set_verbosity; the "
         "stream is observed after every call and compared call by call; the oracle decides allowed / refused from quiet, verbosity "
-        "and flags alone and asks: no byte from a refused call, no mark of a refused text anywhere in the stream, and (decorated, no "
-        "refused clear / overwrite) screen = stacked contents; non-trivial = at least one refused call")
+        "and flags alone and asks: no byte from a refused call, no mark of a refused text anywhere in the stream, and (decorated) "
+        "screen = stacked contents; non-trivial = at least one refused call")
 THEOREMS = ["gate_level", "gate_iff", "gate_monotone", "quiet_silent", "refused_call_is_invisible",
-            "code_is_ideal_unless_clear_refused", "refused_text_never_appears", "gated_run_is_section_run",
-            "ideal_run_is_section_run", "code_run_is_ideal_run",
+            "refused_text_never_appears", "gated_run_is_section_run",
             "refused_arguments_do_not_matter", "gated_screen_is_stack", "groups_are_one_run"]
 TRUSTED = ["which gate calls guard each method body (Model/Gate.v path) is a transcription, checked by this exhaustive tie"]
 ASSUMPTIONS = ["verbosity is one of NORMAL/VERBOSE/VERY_VERBOSE/DEBUG (set_verbosity enforces it)",
-               "refused_text_never_appears / gated_screen_is_stack: no clear / overwrite of a DECORATED section is refused in the "
-               "sequence (leakfree; the code cuts the record of a quiet section on clear - finding); gated_screen_is_stack: the "
-               "texts of the ALLOWED writes are good markup (C15's class), the refused ones may be anything"]
-# finding (reported, /repo unchanged): SectionOutput.clear() / overwrite() of a quiet decorated section emit nothing but cut the
-# recorded content.  The model follows the code (Model/GatedSection.v clear_refused), the tie checks that; the oracle's claim
-# "a refused call leaves no trace" is not made for these calls while this is True.  Set it to False once the code asks the gate
-# first (and make GatedSection.gstep the ideal step).
-CLEAR_LEAK_KNOWN = True
+               "gated_screen_is_stack: the texts of the ALLOWED writes are good markup (C15's class), the refused ones may be "
+               "anything; refused_call_is_invisible / refused_text_never_appears: none"]
+# finding made by this model, repaired in /repo a112510: SectionOutput.clear() / overwrite() of a quiet decorated section emitted
+# nothing but cut the recorded content.  The oracle's claim "a refused call leaves no trace" is made for every call.
 
 METHS = ["write", "write_line", "write_raw", "write_line_raw", "overwrite", "clear"]
 IO_METHS = {"write": (0, 0), "write_line": (0, 1), "write_raw": (0, 2), "write_line_raw": (0, 3),
@@ -414,7 +409,7 @@ def _screen(datas):
 
 def canon_model(case, obs):
     if "later" in case:
-        # (0 emits-per-group sections terminal leakfree): the implementation side is brought to the same shape
+        # (0 emits-per-group sections terminal): the implementation side is brought to the same shape
         return obs
     if "reflect" in case:
         return ["REFLECT", KNOWN]
@@ -426,13 +421,9 @@ def canon_impl(case, obs):
         if obs and obs[0] == "LATER":
             _, seen, _f, state = obs
             if "ops" in case:
-                leakfree = not (is_ansi(case) and any(clr for _, clr in seq_walk(case)))
-                return [0, [termemu.tokens(x) for x in seen], state, _screen(seen), 1 if leakfree else 0]
+                return [0, [termemu.tokens(x) for x in seen], state, _screen(seen)]
             mid, after = seen
-            # the class of refused_text_never_appears / gated_screen_is_stack (Model/GatedSection.v leakfree), decided here
-            # from the case alone: no clear / overwrite of a decorated section is refused
-            leakfree = not (is_ansi(case) and case["q"] and case["m1"] in ("overwrite", "clear", "clear1"))
-            return [0, [termemu.tokens(mid), termemu.tokens(after)], state, _screen([mid, after]), 1 if leakfree else 0]
+            return [0, [termemu.tokens(mid), termemu.tokens(after)], state, _screen([mid, after])]
         return obs[3] if obs and obs[0] == "EXC" else obs
     if "reflect" in case:
         # sections of other IO classes (BufferedIO etc.) appear under their class names
@@ -488,8 +479,6 @@ def oracle_seq(case, seen, state):
             return "emits-without-path"
     if not is_ansi(case):
         return None
-    if any(clr for _, clr in walk) and CLEAR_LEAK_KNOWN:
-        return None            # a refused clear / overwrite of a decorated section: the finding
     bad = screen_vs_stack(seen, state)
     if bad == "screen-differs-from-stacked-contents" and not all(ok for ok, _ in walk):
         return "refused-call-leaves-a-trace"
@@ -513,10 +502,7 @@ def oracle(case, obs):
         if not is_ansi(case):
             return None
         # decorated: the screen is the stack of the recorded contents (Props/C10.v gated_screen_is_stack), the row counts
-        # are theirs - unless a clear / overwrite was refused while the section had content (finding, CLEAR_LEAK_KNOWN)
-        leak = case["q"] and case.get("pre") and m1 in ("overwrite", "clear", "clear1")
-        if leak and CLEAR_LEAK_KNOWN:
-            return None
+        # are theirs - also after a refused clear / overwrite of a section that has content
         bad = screen_vs_stack(seen, state)
         if bad == "screen-differs-from-stacked-contents" and not exp:
             return "refused-call-leaves-a-trace:SectionOutput.%s" % m1
